@@ -240,8 +240,22 @@ def hHist : Handler := handler fun args =>
     pure (.list (histStates (← sh.toBool?) s v ops))
   | _ => none
 
+/-- `(cfg-depr (("old-key" "new-key"|none)…) "key")` ↦ `(ok "key'")` | `(removed)`: `check_deprecations(key, deprecations=…)` -/
+def hDepr : Handler := handler fun args =>
+  match args with
+  | [tbl, k] => do
+    let rows ← (← tbl.toList?).mapM fun it =>
+      match it with
+      | .list [a, .sym "none"] => do pure ((← a.toStr?), (none : Option String))
+      | .list [a, b] => do pure ((← a.toStr?), some (← b.toStr?))
+      | _ => none
+    match checkDeprecations rows (← k.toStr?) with
+    | some k' => pure (.list [.sym "ok", .str k'])
+    | none => pure (.list [.sym "removed"])
+  | _ => none
+
 def table : List (String × Handler) :=
-  [("cfg-set", hSet), ("cfg-set-norollback", hSetNoRollback), ("cfg-exit", hExit), ("cfg-get", hGet),
+  [("cfg-depr", hDepr), ("cfg-set", hSet), ("cfg-set-norollback", hSetNoRollback), ("cfg-exit", hExit), ("cfg-get", hGet),
    ("cfg-canon", hCanon), ("cfg-update", hUpdate), ("cfg-merge", hMerge), ("cfg-env", hEnv), ("cfg-prog", hProg),
    ("cfg-hupdate", hHUpdate), ("cfg-hmerge", hHMerge), ("cfg-hist", hHist)]
 end C17
